@@ -265,11 +265,23 @@ Step(S, o) ==
 (***************************************************************************)
 UsesRef(o, r) == (o.tb = "r" /\ o.ti = r) \/ (o.sb = "r" /\ o.si = r)
 
-Legal(S, o) ==
-  /\ \A r \in DOMAIN S.refs : UsesRef(o, r) => S.refs[r].st # "dead"
+NoDeadRef(S, o) == \A r \in DOMAIN S.refs : UsesRef(o, r) => S.refs[r].st # "dead"
+
+\* source and destination of a copy do not overlap
+NoAlias(S, o) ==
   /\ o.op = "copy" => ~CopyAlias(S, o)
   /\ o.op = "docset" =>
         LET q == ReadRes(S, o.sb, o.si, o.sp) IN ~(q.ok /\ q.d = o.ti)
+
+Legal(S, o) ==
+  /\ NoDeadRef(S, o)
+  /\ NoAlias(S, o)
+  /\ o.op \in {"move", "swap"} => o.ti # o.si
+
+\* the same without the overlap restriction: used only by the alias-overlap probe (known finding):
+\* Step itself has value semantics, so it says what an overlapping copy OUGHT to give
+LegalWithAlias(S, o) ==
+  /\ NoDeadRef(S, o)
   /\ o.op \in {"move", "swap"} => o.ti # o.si
 
 (***************************************************************************)
